@@ -11,7 +11,9 @@ COQ_TARGETS = ["props/C13.vo", "model/SchemaCheck.vo"]
 CHECK_TARGETS = ["model/SchemaCheck.vo"]
 THEOREMS = [
     ("EG.props.C13", n) for n in [
-        "C13_schema_field_sound",
+        "C13_format_path_sound",
+        "C13_schema_path_sound",
+        "C13_leaf_valid_no_panic",
         "C13_RateLimiter_valid_implies_precond",
         "C13_RateLimiter_precond_no_panic",
         "C13_CircuitBreaker_valid_implies_precond",
@@ -23,7 +25,6 @@ THEOREMS = [
         "C13_TopicMapper_valid_implies_precond",
         "C13_Proxy_valid_implies_precond_partial",
         "C13_Proxy_precond_no_panic",
-        "C13_leaf_valid_no_panic",
         "C13_refuted_wr_zero_total",
         "C13_refuted_rl_zero_period",
         "C13_refuted_sig_no_keystore",
@@ -40,7 +41,7 @@ THEOREMS = [
 
 _LIB = ["harness/c13lib/c13_types.go", "harness/c13lib/c13_gen.go", "harness/c13lib/c13_kinds.go",
         "harness/c13lib/c13_obs.go", "harness/c13lib/c13_iso.go"]
-_EXTRA = {"pkg/zzverifc13/" + os.path.basename(f): f for f in _LIB}
+_EXTRA = {"pkg/zzverifc13/zz_verif_" + os.path.basename(f): f for f in _LIB}
 _EXTRA["pkg/filters/proxy/zz_verif_c13_hook.go"] = "harness/proxy/zz_verif_c13_hook.go"
 _EXTRA["pkg/filters/builder/zz_verif_c13_hook.go"] = "harness/builder/zz_verif_c13_hook.go"
 
